@@ -318,7 +318,7 @@ def fmt(ab):
 
 # ---- CharacterClass BFS ------------------------------------------------------------------------------------
 
-PROBES = [ord(c) for c in 'abcdz059 _-'] + [0x660, 0xE9, 0x10, M]
+PROBES = [ord(c) for c in 'abcdz059 _-'] + [0x660, 0xE9, 0x10, M, 0x41, 0x5A, 0xC9]
 
 
 def cc_model_of(text):
